@@ -36,6 +36,17 @@ func (b *gBuilder) MaxLen(quick bool) int {
 	return 6
 }
 
+// Seeds: well-formed graphs of 8-9 calls in which a node hangs on its predecessor TWICE (edge + branch) or is reached
+// over two routes; one or two calls further lie cycles that do not run through the entry node, a second exit, a
+// duplicate edge ... (all-predecessor validation counts predecessors per edge and per branch).
+func (b *gBuilder) Seeds() [][]string {
+	return [][]string{
+		{"AddLambdaNode(a)", "AddLambdaNode(b)", "AddPassthroughNode(p)", "AddEdge(start,p)", "AddEdge(p,a)", "AddBranch(p->{a,end})", "AddEdge(a,b)", "AddEdge(b,end)"},
+		{"AddLambdaNode(a)", "AddLambdaNode(b)", "AddEdge(start,a)", "AddEdge(a,b)", "AddBranch(a->{b,end})", "AddEdge(b,end)"},
+		{"AddLambdaNode(a)", "AddLambdaNode(b)", "AddPassthroughNode(p)", "AddEdge(start,a)", "AddEdge(start,p)", "AddEdge(a,b)", "AddEdge(p,b)", "AddEdge(b,end)"},
+	}
+}
+
 const ghost = "ghost"
 
 func newGraphBuilder(stateful bool) *gBuilder {
